@@ -39,6 +39,10 @@ CLAIMED = {
             "metamorphic: comment / white-space forms inserted at every token boundary of accepted and rejected texts leave return code and values unchanged; annotation text, print and re-parse checked against the lexer model",
             "Annotation inheritance is judged only in the positive direction stated by the property.",
             "metamorphic property-based testing (Hypothesis), insertion at every token boundary, lexer model for the expected annotation"),
+    "C05": ("exploration", "5.C05",
+            "round trip / fix point: random states (texts and setter sequences, strings and titles over all bytes) printed, re-parsed into a fresh context, trees and second/third print compared",
+            "States without a text form (explicit NULL strings, removed default sections, NaN/inf) are not generated.",
+            "round-trip property-based testing (Hypothesis stateful-style operation sequences), print/parse/print fix-point oracle"),
 }
 PENDING = {}
 props = [json.loads(l) for l in open(os.path.join(V, "properties.jsonl"))]
